@@ -59,6 +59,7 @@ var (
 	reInt  = regexp.MustCompile(`^(\+|-)?\d+$`)
 	reDec  = regexp.MustCompile(`^(\+|-)?\d+(\.\d+)?$`)
 	reQty  = regexp.MustCompile(`^(\+|-)?\d+(\.\d+)?\s*('[^']+'|[a-zA-Z]+)?$`)
+	reWideOffset = regexp.MustCompile(`[+-](1[4-9]|2[0-3]):[0-5]\d$`)
 	reTime = regexp.MustCompile(`^\d\d(:\d\d(:\d\d(\.\d+)?)?)?$`)
 )
 
@@ -144,6 +145,9 @@ func convertible(m model.CVal, target string) string {
 			}
 			t, ok := model.ParseTemporal("DateTime", m.S)
 			if !ok {
+				if reWideOffset.MatchString(m.S) {
+					return "" // an offset beyond +-14:00: FHIR forbids it, the FHIRPath string form does not say
+				}
 				return "no"
 			}
 			if strings.HasSuffix(m.S, "T") {
